@@ -62,6 +62,19 @@ def confs_for(gen: str) -> list[dict]:
     return [dict(base, mode=m) for m in RC.MODES]
 
 
+def raiser_for(gen: str):
+    """a configuration of the same family whose seeded call raises *inside* `with temp_seed` (None when the family has none)"""
+    if gen in ("FastMRIEquispaced", "FastMRIMagic", "KtUniform", "KtGaussian1D"):
+        return {"gen": gen, "accelerations": [4], "center_fractions": [0.5], "mode": "dynamic" if gen in RC.KT else "static"}
+    if gen == "CartesianEquispaced":
+        return {"gen": gen, "accelerations": [4], "center_fractions": [16], "mode": "static"}
+    if gen == "CartesianMagic":
+        return {"gen": gen, "accelerations": [4], "center_fractions": [40], "mode": "static"}
+    if gen == "VariableDensityPoisson":
+        return {"gen": gen, "accelerations": [4], "center_fractions": [0.08], "mode": "static", "kwargs": {"tol": 1e-9}}
+    return None
+
+
 def shape_for(conf: dict, rng, small=False) -> list[int]:
     lo, hi = (16, 28) if small else (24, 44)
     if conf["gen"] in ("VariableDensityPoisson",):
@@ -100,9 +113,20 @@ def job_history(args: dict) -> dict:
         if k == "new":
             insts[op["inst"]] = RC.build(confs[op["inst"]])
         elif k == "call":
-            r = RC.run_call(insts[op["inst"]], op["shape"], op["acs"], op["seed"])
+            r = RC.run_call(insts[op["inst"]], op["shape"], op["acs"], op["seed"], fault=op.get("fault"))
             r.pop("_array", None)
             rec["call"] = r
+        elif k == "transform":
+            # the data pipeline's way into the generator: CreateSamplingMask derives the seed from the file name
+            from direct.data.mri_transforms import CreateSamplingMask
+
+            tr = CreateSamplingMask(mask_func=insts[op["inst"]], use_seed=True, return_acs=bool(op["acs"]))
+
+            def thunk(mf, tr=tr, op=op):
+                smp = tr({"kspace": torch.zeros(*op["kshape"]), "filename": op["filename"]})
+                return [smp["sampling_mask"]] + ([smp["acs_mask"]] if op["acs"] else [])
+
+            rec["call"] = RC.run_call(insts[op["inst"]], None, False, None, thunk=thunk)
         elif k == "np_draw":
             np.random.rand(op["n"])
         elif k == "np_seed":
@@ -135,16 +159,18 @@ def make_history(conf: dict, seedkind: str, rng, idx: int) -> dict:
     """confs[0] observed generator, confs[1] a second instance of it, confs[2] another generator."""
     others = [g for g in RC.GENERATORS if g != conf["gen"]]
     other = confs_for(rng.choice(others))[0]
-    confs = [conf, conf, other]
+    raiser = raiser_for(conf["gen"])
+    confs = [conf, conf, other] + ([raiser] if raiser else [])
     shape = shape_for(conf, rng)
     seed = _seed_of(seedkind, rng)
-    ops = [{"op": "new", "inst": 0}, {"op": "new", "inst": 2}]
+    fname = "".join(map(chr, seed)) if seedkind == "tuple" else None     # the observed seed IS the ord-tuple of this name
+    ops = [{"op": "new", "inst": 0}, {"op": "new", "inst": 2}] + ([{"op": "new", "inst": 3}] if raiser else [])
     sizes = {"np": [1, 2, 4, 8, 16, 32], "torch": [1, 2, 4, 8], "py": [1, 2, 4, 8, 16]}
     for v in sizes.values():
         rng.shuffle(v)
     n = rng.randint(4, 8)
     kinds = ["other_seed", "unseeded", "other_shape", "acs", "other_gen", "same", "np", "torch", "py", "np", "py", "torch",
-             "bad_shape", "bad_seed"]
+             "bad_shape", "bad_seed", "fault", "fault", "transform_other", "transform_same", "raiser"]
     has_call0 = has_pert = False
     for j in range(n):
         k = rng.choice(kinds)
@@ -152,6 +178,8 @@ def make_history(conf: dict, seedkind: str, rng, idx: int) -> dict:
             k = rng.choice(["other_seed", "unseeded", "acs", "same", "other_shape"])
         if j == 1:
             k = rng.choice(["np", "torch", "py"])
+        if j == n - 1 and rng.random() < 0.5:
+            k = rng.choice(["fault", "raiser", "transform_same"])      # right before the observed call
         if k == "other_seed":
             ops.append({"op": "call", "inst": 0, "shape": shape, "acs": False, "seed": _seed_of(rng.choice(["int", "tuple"]), rng)})
         elif k == "unseeded":
@@ -167,6 +195,18 @@ def make_history(conf: dict, seedkind: str, rng, idx: int) -> dict:
                         "seed": seed})
         elif k == "bad_seed":      # malformed: a float seed is rejected by RandomState.seed
             ops.append({"op": "call", "inst": 0, "shape": shape, "acs": False, "seed": 1.5})
+        elif k == "fault":         # an exception raised inside `with temp_seed` (at the k-th draw statement)
+            ops.append({"op": "call", "inst": 0, "shape": shape, "acs": rng.random() < 0.2,
+                        "seed": seed if rng.random() < 0.7 else None, "fault": rng.choice([1, 1, 2])})
+        elif k == "raiser":        # an infeasible pair of the same family: raises inside the scope by itself
+            if not raiser:
+                continue
+            ops.append({"op": "call", "inst": 3, "shape": shape if raiser["mode"] == conf["mode"] or conf["gen"] in RC.KT
+                        else shape[-3:], "acs": False, "seed": seed})
+        elif k in ("transform_other", "transform_same"):
+            nm = fname if (k == "transform_same" and fname) else "file%d.h5" % rng.randint(1, 9999)
+            ops.append({"op": "transform", "inst": 0, "kshape": [rng.choice([1, 4])] + shape, "filename": nm,
+                        "acs": rng.random() < 0.5, "same": nm == fname})
         elif k == "other_gen":
             ops.append({"op": "call", "inst": 2, "shape": shape_for(other, rng, small=True), "acs": False,
                         "seed": seed if rng.random() < 0.5 else None})
@@ -178,7 +218,7 @@ def make_history(conf: dict, seedkind: str, rng, idx: int) -> dict:
             else:
                 ops.append({"op": k + "_draw", "n": sizes[k].pop()})
             has_pert = True
-        if ops[-1]["op"] == "call" and ops[-1]["inst"] == 0:
+        if ops[-1]["op"] in ("call", "transform") and ops[-1]["inst"] == 0:
             has_call0 = True
     fresh = rng.random() < 0.5
     if fresh:
@@ -246,6 +286,10 @@ def run_histories(ctx: Ctx, n_per_conf: int, store: dict):
                         except RC.Hang as e:
                             store["hangs"].append({"history": {k: h[k] for k in ("confs", "ops")}, "budget": e.budget})
                             continue
+                        except RC.WorkerFailure as e:     # the process died: a finding with its arguments, never exit 2
+                            store["hangs"].append({"history": {k: h[k] for k in ("confs", "ops")}, "budget": 0,
+                                                   "crash": str(e)[:120], "gen": conf["gen"]})
+                            continue
                         store["histories"].append(h)
     finally:
         wa.close()
@@ -309,24 +353,50 @@ def correspondence(ctx: Ctx):
         conf_ids = {}
         keys, seeds, reqs = {}, {}, {}
         groups = [[ninst], tflat]
-        snaps = [res["initial"]] + [s["snap"] for s in res["steps"]]
+        snaps = [res["initial"]]
         outs = []
         for op, st in zip(h["ops"], res["steps"]):
             k = op["op"]
             if k == "new":
                 groups.append([1, op["inst"]])
+                snaps.append(st["snap"])
             elif k == "call":
                 cid = conf_ids.setdefault(json.dumps(h["confs"][op["inst"]], sort_keys=True), len(conf_ids))
-                key = keys.setdefault((cid, tuple(op["shape"]), op["acs"]), len(keys))
+                key = keys.setdefault((cid, tuple(op["shape"]), op["acs"], op.get("fault")), len(keys))
                 sd = -1 if op["seed"] is None else seeds.setdefault(json.dumps(op["seed"]), len(seeds))
                 groups.append([0, op["inst"], key, sd] + _events(table, st["call"], reqs))
+                snaps.append(st["snap"])
                 outs.append(_out_identity(cid, op, st["call"]))
+            elif k == "transform":
+                # one generator call per `with temp_seed` scope the transform opened; seed = ord-tuple of the file name
+                cid = conf_ids.setdefault(json.dumps(h["confs"][op["inst"]], sort_keys=True), len(conf_ids))
+                sd = seeds.setdefault(json.dumps(list(map(ord, op["filename"]))), len(seeds))
+                subs, cur = [], None
+                for e in st["call"]["log"]:
+                    if e["kind"] == "scope_seed":
+                        cur = [e]
+                        subs.append(cur)
+                    elif cur is not None:
+                        cur.append(e)
+                if not subs:
+                    subs = [[]]
+                for n_sub, sub in enumerate(subs):
+                    acs = n_sub == 1
+                    pop = {"shape": op["kshape"][1:], "acs": acs}
+                    masks = st["call"].get("masks") or []
+                    pcall = {"err": st["call"]["err"] if n_sub == len(subs) - 1 else None,
+                             "mask": masks[n_sub] if n_sub < len(masks) else None, "log": sub}
+                    key = keys.setdefault((cid, tuple(pop["shape"]), acs, None), len(keys))
+                    groups.append([0, op["inst"], key, sd] + _events(table, pcall, reqs))
+                    snaps.append(st["snap"])
+                    outs.append(_out_identity(cid, pop, pcall))
             else:
                 which = {"np": 0, "torch": 1, "py": 2}[k.split("_")[0]]
                 if k.endswith("_draw"):
                     groups.append([2, which, reqs.setdefault(("g", op["n"]), len(reqs))])
                 else:
                     groups.append([3, which, seeds.setdefault(json.dumps(["g", op["s"]]), len(seeds))])
+                snaps.append(st["snap"])
         ans = "ok " + " | ".join(" ".join(map(str, g)) for g in [
             _number([s["np"] for s in snaps]), _number([s["torch"] for s in snaps]), _number([s["py"] for s in snaps]),
             _number([p for s in snaps for p in s["priv"]]), _number(outs)])
@@ -368,7 +438,7 @@ def _check_history(h, table):
     rep = {"op": "history", "confs": h["confs"], "ops": h["ops"], "shape": h["shape"], "seed": h["seed"]}
     prev = res["initial"]
     for op, st in zip(h["ops"], res["steps"]):
-        if op["op"] == "call":
+        if op["op"] in ("call", "transform"):
             for stream in ("np", "torch", "py"):
                 if st["snap"][stream] != prev[stream]:
                     yield Violation(f"global-{stream}-touched/{h['confs'][op['inst']]['gen']}",
@@ -396,11 +466,22 @@ def _check_history(h, table):
                             f"same shape + seed gives a different {what} after a history than alone in a fresh process",
                             dict(rep, what=what, observed={"err": a["err"], "mask": a.get("mask"), "sum": a.get("sum")},
                                  expected={"err": b["err"], "mask": b.get("mask"), "sum": b.get("sum")}))
+    # the data pipeline's route: CreateSamplingMask on a sample of the same file / shape gives the observed mask
+    for op, st in zip(h["ops"], res["steps"]):
+        if op["op"] == "transform" and op.get("same") and st["call"]["err"] is None and obs_mask["err"] is None:
+            got = st["call"]["masks"]
+            if got[0] != obs_mask["mask"] or (len(got) > 1 and got[1] != obs_acs["mask"]):
+                yield Violation(f"transform-mask-differs/{tag}",
+                                "CreateSamplingMask(use_seed) on a sample with this file name gives another mask than "
+                                "mask_func(shape, seed=tuple(map(ord, filename)))", dict(rep, failing_op=op))
+        if op["op"] == "transform" and st["call"]["err"] is not None:
+            yield Violation(f"transform-raises/{tag}", f"CreateSamplingMask raises {st['call']['err']}", dict(rep, failing_op=op))
     # repeated identical seeded calls inside the history
     seen = {}
     for op, st in zip(h["ops"], res["steps"]):
         if op["op"] == "call" and op["seed"] is not None:
-            k = (json.dumps(h["confs"][op["inst"]], sort_keys=True), tuple(op["shape"]), op["acs"], json.dumps(op["seed"]))
+            k = (json.dumps(h["confs"][op["inst"]], sort_keys=True), tuple(op["shape"]), op["acs"], json.dumps(op["seed"]),
+                 op.get("fault"))
             v = (st["call"]["err"], st["call"].get("mask"))
             if k in seen and seen[k] != v:
                 yield Violation(f"seeded-mask-depends-on-history/{tag}", "two identical seeded calls in one history differ",
@@ -415,16 +496,25 @@ def oracle(ctx: Ctx, deep: bool = False):
         run_histories(ctx, 4 if deep else ctx.budget(2, 12), store)
     table = store["table"]
     for hg in store.get("hangs", []):
+        if hg.get("crash"):
+            yield Violation(f"generator-crashes/{hg['gen']}", f"the process running the history died: {hg['crash']}",
+                            {"op": "history", **hg["history"], "shape": None, "seed": None})
+            continue
         yield Violation("call-does-not-return", f"a generator call did not return within {hg['budget']} s",
                         {"op": "history", **hg["history"]})
     n_err = 0
     errs: dict = {}
     for h in store["histories"]:
         for op, st in zip(h["ops"], h["res"]["steps"]):
+            if op["op"] == "transform":
+                kk = "transform:" + (st["call"]["err"] or "ok")
+                errs[kk] = errs.get(kk, 0) + 1
             if op["op"] == "call":
                 k = st["call"]["err"] or "ok"
                 malformed = op["seed"] == 1.5 or len(op["shape"]) < (4 if h["confs"][op["inst"]]["gen"] in RC.KT else 3)
-                errs[("malformed:" if malformed else "valid:") + k] = errs.get(("malformed:" if malformed else "valid:") + k, 0) + 1
+                cls = "fault-injected:" if op.get("fault") else "infeasible-raiser:" if op["inst"] == 3 else \
+                    "malformed:" if malformed else "valid:"
+                errs[cls + k] = errs.get(cls + k, 0) + 1
         conf = h["confs"][0]
         ctx.count(("oracle", h["idx"], json.dumps(h["ops"], sort_keys=True)), h["nontrivial"],
                   sample={"gen": conf["gen"], "mode": conf["mode"], "shape": h["shape"], "seed": h["seed"],
@@ -446,7 +536,7 @@ def replay(rep: dict) -> bool:
         try:
             h["res"] = wa.call(MOD, "job_history", {"confs": h["confs"], "ops": h["ops"]}, budget=60)
             h["ref"] = wb.call(MOD, "job_history", reference_job(h), budget=60)
-        except RC.Hang:
+        except (RC.Hang, RC.WorkerFailure):
             return True
         return any(True for _ in _check_history(h, _table()))
     finally:
